@@ -40,6 +40,18 @@ RULE = ("complete enumeration: decision of each of the three questions in {Deny,
         "vary the completion order; non-trivial = tier GET allowed or some error flag set; distinct by the whole input")
 
 
+def scan_gen_forbidden():
+    bad = []
+    d = os.path.join(vlib.COQ, "gen", PROP)
+    for f in sorted(os.listdir(d)):
+        if f.endswith(".v"):
+            txt = re.sub(r"\(\*.*?\*\)", " ", open(os.path.join(d, f)).read(), flags=re.S)
+            for i, line in enumerate(txt.split("\n"), 1):
+                if vlib.FORBIDDEN.search(line) or re.match(r"\s*(Variables?|Hypothes[ie]s|Context)\b", line):
+                    bad.append("coq/gen/%s/%s:%d: %s" % (PROP, f, i, line.strip()))
+    return bad
+
+
 def build_tools(ctx):
     ov = vlib.make_overlay(ctx)
     out = os.path.join(ctx.build, "bin")
@@ -86,7 +98,7 @@ def run(ctx):
 
     ctx.log("building Coq development")
     ok, log = vlib.coq_build(["theories/Common/CaseLib.vo"] + vlib.prop_targets(PROP))
-    forb = vlib.scan_forbidden([PROP])
+    forb = vlib.scan_forbidden([PROP]) + scan_gen_forbidden()
     proof_broken = None
     if not ok:
         proof_broken = "Coq build failed:\n" + log[-4000:]
@@ -149,7 +161,13 @@ def run(ctx):
         return vlib.finish(ctx, [(rp, "no-failing-input-found")], [], "proof", coverage(), ASSUMPTIONS)
 
     ctx.log("running driver (complete enumeration), seed %d" % ctx.seed)
-    lines = vlib.run_driver(ctx, drv, ["-seed", ctx.seed])
+    try:
+        lines = vlib.run_driver(ctx, drv, ["-seed", ctx.seed])
+    except RuntimeError as e:
+        # the real code panicked / crashed under the driver (e.g. "sync: negative WaitGroup counter")
+        rp = vlib.write_replay(ctx, "driver-crash", dict(kind="implementation-crash", log=str(e)[-5000:], proof=proof_broken,
+                               note="the real AuthorizeTierOperation crashed while the driver ran the enumeration"))
+        return vlib.finish(ctx, [(rp, "")], [], "proof", coverage(), ASSUMPTIONS)
     cases = [l for l in lines if "coq" in l]
     if gen_ok:
         imports, checker, q = ["From Verif.C34 Require Import Model Spec.", "From VerifGen Require Import Gen."], "(check_case G)", gq
